@@ -33,12 +33,9 @@ func QuietLogs() {
 
 // FreeTCPPort returns a currently free loopback TCP port.
 func FreeTCPPort() int {
-	l, err := net.Listen("tcp", "127.0.0.1:0")
-	if err != nil {
-		panic(err)
-	}
-	defer l.Close()
-	return l.Addr().(*net.TCPAddr).Port
+	// not an OS-chosen ephemeral port: between the probe and the bind an outgoing connection of any process could take
+	// it (seen once in a fresh-sandbox run: "bind: address already in use" for a vhost port picked this way)
+	return FreeBlock(1)
 }
 
 // FreeBlock returns the base of n consecutive ports free for both tcp and udp on 127.0.0.1.
